@@ -86,7 +86,7 @@ def run(ctx):
         for idx, ev in enumerate(trace):
             # "n": an opaque error; "p" / "x": the same fault reported as a permission / already-exists error of the os
             # package (only "does not exist" may be treated as damage)
-            kinds = ["n", "p"] + (["x"] if ev.startswith("R:") else [])
+            kinds = ["n", "p"] + (["x", "d", "a"] if ev.startswith("R:") else [])      # d: ENOTDIR, a: EAGAIN (a timeout-class error)
             if ev.startswith("W:"):
                 # size of the data being written is not in the trace; torn lengths 0, 1 and two larger ones
                 kinds += ["t0", "t1", "t7", "t100000"]
